@@ -122,6 +122,8 @@ func NewSimReader(c *Ctx, name string, data []byte, s *ReadSched) *SimReader {
 func (r *SimReader) Consumed() int { return r.pos }
 
 func (r *SimReader) Read(p []byte) (n int, err error) {
+	simEnter()
+	defer simLeave()
 	r.reads++
 	defer func() {
 		r.c.Event("%s.Read(%d)@%d -> %d,%v", r.name, len(p), r.pos-n, n, err)
@@ -236,6 +238,8 @@ type SimWriter struct {
 }
 
 func (w *SimWriter) Write(p []byte) (int, error) {
+	simEnter()
+	defer simLeave()
 	w.Calls++
 	w.Offered = append(w.Offered, append([]byte(nil), p...))
 	w.c.Event("Write(%d) h=%x", len(p), uint64(fnvOff.Bytes(p)))
@@ -485,6 +489,8 @@ func (d *SimDisk) OpenFile(name string, flag int) (*verifsim.File, error) {
 	pos := 0
 	return &verifsim.File{Nm: name,
 		WriteFn: func(p []byte) (int, error) {
+			simEnter()
+			defer simLeave()
 			d.WriteCalls++
 			d.c.Event("disk.Write(%s,%d) h=%x", name, len(p), uint64(fnvOff.Bytes(p)))
 			d.c.C["disk_events"]++
@@ -521,6 +527,8 @@ func (d *SimDisk) OpenFile(name string, flag int) (*verifsim.File, error) {
 			return len(p), nil
 		},
 		ReadFn: func(p []byte) (int, error) {
+			simEnter()
+			defer simLeave()
 			f := d.Files[name]
 			if pos >= len(f) {
 				return 0, io.EOF
